@@ -86,7 +86,7 @@ def boundByImports (is : List ImportFrom) : List String :=
 def level1Names (is : List ImportFrom) : List String :=
   is.flatMap (fun i =>
     match i.module with
-    | some mname => if i.level == 1 || mname.startsWith "." then i.names.map (·.1) else []
+    | some mname => if i.level == 1 || startsWithDot mname then i.names.map (·.1) else []
     | none => [])
 
 /-- C15-F3: ClientForwardRefs is configured before ShorterResults and some method has a single
@@ -159,7 +159,7 @@ def trigFwdEmptyTypeChecking (x : Input) : Bool :=
          | some (_, ann) =>
            (leavesOf ann).any (fun n =>
              (match alookup n st.importedTypes with
-              | some src => src.startsWith "."
+              | some src => startsWithDot src
               | none => ahas n st.classDict) || level1.contains n))))
 
 def triggersOf (x : Input) : List String :=
